@@ -478,13 +478,15 @@ End Hints.
 Definition td_validate (p : iprog) (voff : N) (entries : list nat) (init : env)
            (tpre tpost : nat -> nat -> env) (S : list summ)
            (delay desc efuel : nat) (wtos : nat -> wto) : bool :=
-  let mk := mk_cert p voff S delay desc efuel wtos in
-  (* the root context of an entry function of the recursive set starts from top, as the analyzer
-     does (fixes/inter-6); untrusted: whatever the roots, td_check decides *)
+  (* an entry function of the recursive set is analysed from top and its recursive calls are
+     replaced by top (fixes/inter-6): no summary is stored for it; the certificate uses the
+     trivial summary (top, top), justified by the context that starts from top *)
   let rs := match cg_recset p with Some rs => rs | None => [] end in
+  let S' := S ++ flat_map (fun f => if nmem f rs then [mkSumm f e_top e_top] else []) entries in
+  let mk := mk_cert p voff S' delay desc efuel wtos in
   td_check p voff entries init tpre tpost
-           (map (fun f => mk f (if nmem f rs then e_top else init)) entries)
-           (map (fun sm => (sm, mk (s_fn sm) (s_pre sm))) S).
+           (map (fun f => mk f init) entries)
+           (map (fun sm => (sm, mk (s_fn sm) (s_pre sm))) S').
 
 (* the summaries stored by the model: get_summary(f) for every function, in order *)
 Definition g_summaries (p : iprog) (g : gst) : list summ :=
